@@ -182,6 +182,10 @@ theorem isZero_iff (v : V3) : isZero v = true ↔ v = V3.zero := by
   cases v
   simp [isZero, V3.zero, and_assoc]
 
+theorem isZero_false_iff (v : V3) : isZero v = false ↔ v ≠ V3.zero := by
+  have := isZero_iff v
+  cases h : isZero v <;> simp_all
+
 /-- `Cylinder` / `SemiCylinder`: rejected iff the axis or the radius vector vanishes or their dot product
     leaves [-tol, tol] **on either side** -/
 theorem T_C20_cylinder_perp (tol : Rat) (a1 a2 rp : V3) :
@@ -533,5 +537,97 @@ theorem T_C20_project_add_label (tol : Rat) (h new : List Nat) (hh : 0 < h.lengt
   omega
 
 example : 0 < ([0, 1] : List Nat).length ∧ ([0, 1] : List Nat).Nodup := by decide
+
+/-! ### the whole catalogue in one statement -/
+
+theorem not_iff_bnot {P : Prop} {b : Bool} (h : b = true ↔ P) : ¬ P ↔ (!b) = true := by
+  cases b <;> simp_all
+
+/-- **Every guard of the catalogue rejects exactly the calls that violate the documented precondition**, for every
+    tolerance and all arguments (`wf`: a stack has at least one shape and one row; a `Project` that receives a label
+    already has one). -/
+theorem T_C20_enforced (tol : Rat) (c : Call) (hwf : wf c = true) :
+    (run tol c).isReject = !(pre tol c) := by
+  rw [Bool.eq_iff_iff]
+  cases c with
+  | faceShape n m => rw [T_C20_face_shape]; exact not_iff_bnot (by simp [pre])
+  | faceEdges k => rw [T_C20_face_edges]; exact not_iff_bnot (by simp [pre])
+  | faceCoplanar p0 p1 p2 p3 => rw [T_C20_face_coplanar]; exact not_iff_bnot (by simp [pre])
+  | faceAddEdge c => rw [T_C20_face_add_edge]; exact not_iff_bnot (by simp [pre, inRange])
+  | faceProjectEdge c => rw [T_C20_face_project_edge]; exact not_iff_bnot (by simp [pre, inRange])
+  | faceRemoveEdges cs => rw [T_C20_face_remove_edges]; exact not_iff_bnot (by simp [pre, inRange])
+  | pointShape dims => rw [T_C20_point_shape]; exact not_iff_bnot (by simp [pre])
+  | arrayShape n m => rw [T_C20_array_shape]; exact not_iff_bnot (by simp [pre])
+  | sideVertices k => rw [T_C20_side_vertices]; exact not_iff_bnot (by simp [pre])
+  | opAddSideEdge c => rw [T_C20_op_add_side_edge]; exact not_iff_bnot (by simp [pre, inRange])
+  | opProjectCorner c => rw [T_C20_op_project_corner]; exact not_iff_bnot (by simp [pre, inRange])
+  | opProjectEdge c1 c2 =>
+      rw [T_C20_op_project_edge]; exact not_iff_bnot (by simp [pre, inRange, cornerPairOk, and_assoc])
+  | opChop axis => rw [(T_C20_op_chop tol axis).1]; exact not_iff_bnot (by simp [pre, inRange])
+  | opUnchop axis => rw [(T_C20_op_chop tol axis).2]; exact not_iff_bnot (by simp [pre, inRange])
+  | opSide side => rw [T_C20_op_side]; exact not_iff_bnot (by simp [pre])
+  | fromSeries k => rw [T_C20_from_series]; exact not_iff_bnot (by simp [pre])
+  | blockAddEdge c1 c2 =>
+      rw [T_C20_block_add_edge]; exact not_iff_bnot (by simp [pre, inRange, cornerPairOk, and_assoc])
+  | frameAddBeam c1 c2 =>
+      rw [T_C20_frame_add_beam]; exact not_iff_bnot (by simp [pre, inRange, cornerPairOk, and_assoc])
+  | projectLabels n => rw [T_C20_project_labels]; exact not_iff_bnot (by simp [pre])
+  | projectAddLabel h new =>
+      have hh : 0 < h.length := by
+        simp only [wf, Bool.and_eq_true, decide_eq_true_eq] at hwf; exact hwf.1
+      rw [(T_C20_project_add_label tol h new hh).1]
+      have := mergeLabels_length h new
+      refine not_iff_bnot ?_
+      simp only [pre, Bool.and_eq_true, decide_eq_true_eq]
+      omega
+  | lengthRatio r => rw [T_C20_length_ratio]; exact not_iff_bnot (by simp [pre])
+  | annulus c p n rin nseg =>
+      rw [T_C20_annulus]; exact not_iff_bnot (by simp [pre, isZero_false_iff, and_assoc])
+  | cylinder a1 a2 rp => rw [T_C20_cylinder_perp]; exact not_iff_bnot (by simp [pre, isZero_false_iff, and_assoc])
+  | frustum a1 a2 rp => rw [T_C20_frustum_perp]; exact not_iff_bnot (by simp [pre, isZero_false_iff, and_assoc])
+  | chain kind len => rw [T_C20_chain]; exact not_iff_bnot (by simp [pre])
+  | ringContract rnew rsrc => rw [T_C20_ring_contract]; exact not_iff_bnot (by simp [pre])
+  | cylinderFill nseg => rw [T_C20_cylinder_fill]; exact not_iff_bnot (by simp [pre])
+  | loftedShape n1 n2 mids => rw [T_C20_lofted_shape]; exact not_iff_bnot (by simp [pre])
+  | stackSlice axis idx n0 n1 n2 =>
+      simp only [wf, Bool.and_eq_true, decide_eq_true_eq] at hwf
+      rw [T_C20_stack_slice tol axis idx n0 n1 n2 hwf.1 hwf.2]
+      exact not_iff_bnot (by simp [pre, inRange, and_assoc])
+
+example : wf (.stackSlice 1 2 2 3 4) = true ∧ wf (.projectAddLabel [0] [1, 2]) = true := by decide
+
+/-! ### the probe table: outcomes of the real implementation, regenerated from the source on every run -/
+
+abbrev Probe := String × List (Int × Nat) × List String × String
+
+def probeCall (p : Probe) : Option Call :=
+  callOf p.1 (p.2.1.map (fun q => mkRat q.1 q.2)) p.2.2.1
+
+/-- does the outcome recorded for the implementation agree with the model's guard? (`*`: any exception) -/
+def outMatches (o : Out) (s : String) : Bool :=
+  match o with
+  | .accept => s == "accepted"
+  | .reject c => if c == "*" then s != "accepted" else s == c
+
+/-- the probe is a well-formed call of the catalogue, the model's guard reproduces the recorded outcome, and the
+    recorded outcome is a rejection exactly when the documented precondition is violated -/
+def probeOk (tol : Rat) (p : Probe) : Bool :=
+  match probeCall p with
+  | some c => wf c && outMatches (run tol c) p.2.2.2 && ((p.2.2.2 != "accepted") == !(pre tol c))
+  | none => false
+
+def probeChunks : List (List Probe) :=
+  [CBV.Gen.c20Probes0, CBV.Gen.c20Probes1, CBV.Gen.c20Probes2, CBV.Gen.c20Probes3, CBV.Gen.c20Probes4,
+   CBV.Gen.c20Probes5, CBV.Gen.c20Probes6, CBV.Gen.c20Probes7, CBV.Gen.c20Probes8, CBV.Gen.c20Probes9]
+
+/-- On every probe of the generated table (both sides of every boundary, executed against the current source by
+    the translator): the implementation rejected the call iff the documented precondition is violated, and the
+    model's guard gives the same outcome (same exception class). -/
+theorem T_C20_probe_table : ∀ ch ∈ probeChunks, ∀ p ∈ ch, probeOk tolGen p = true := by
+  decide +kernel
+
+/-- the table is not empty and the tolerance read from the source is positive -/
+theorem T_C20_probe_table_nonempty : 400 ≤ (probeChunks.map List.length).sum ∧ 0 < tolGen := by
+  decide +kernel
 
 end CBV.C20
